@@ -345,6 +345,9 @@ def run(tier, seed):
     cfgs = configs(tier, seed)
     co = [(CP.P18(), True, None, 0.1), (CP.P18().restrict(control=False), True, 4.0, 0.25)]
     tasks = [(task, (p, cse, k, md, tier, seed)) for p, cse, k, md in cfgs] + [(task_compile_only, (p, cse, k, md, tier, seed)) for p, cse, k, md in co]
+    from . import cfgrb
+
+    tasks += [(cfgrb.task, (PID, *c, tier, seed)) for c in cfgrb.combos(tier)]
     for d in pmap(_dispatch, tasks):
         rep.merge(d)
     rep.bounds = {"configurations": [f"{p.id}/k={k}/max_dt={md}" for p, _, k, md in cfgs], "timestamps": "concrete schedules (0, 1, 2 full steps + remainder, forwards/backwards/same time, readings before/after the held time, out of order); all times are decided symbolically in C10/C11", "values": "all real states, covariances, controls, calibrations, readings", "compile_clause": "decided by g++ -std=c++17 (symbolic and plain-double builds), not by SMT"}
@@ -360,6 +363,10 @@ def run(tier, seed):
 def replay(path):
     with open(path) as f:
         r = json.load(f)
+    if r.get("info", {}).get("kind") == "cfgrb":
+        from . import cfgrb
+
+        return cfgrb.replay(PID, r["info"])
     info = r["info"]
     ps = {}
     for p, _, _, _ in configs("thorough", 0) + configs("quick", 0):
